@@ -26,7 +26,8 @@ CONTRACT = """        requires link_of_ty(param_ty, self) matches Some(l) ==> li
                 // primitives, enums, slices, options ...: nothing to validate
                 None => final(errors).errors@ == old(errors).errors@,
                 Some(l) => (final(errors).errors@.len() > old(errors).errors@.len()) == any_viol(l, &method.lifetime_env, l.all@.len() as int, 0),
-            },"""
+            },
+        decreases param_ty,"""
 OUTER = """let all__ = linked.lifetimes_all();
         let mut oi__: usize = 0;
         while oi__ < all__.len()
